@@ -11,6 +11,25 @@ TRUSTED_BASE = [
 ]
 
 
+# Generated table section -> generators whose exhaustive sub-domains run the production code over the
+# table's whole domain against the model (used when the section's source can no longer be translated;
+# see check.py).  Sections without an entry have no behavioural fallback.
+TABLE_FALLBACK = {
+    "limits": {"srv_tcp", "srv_rtu", "srv_auth", "cl_enc", "cl_resp"},          # boundary lattice L-1, L, L+1 per function
+    "server_limits": {"srv_tcp", "srv_rtu", "srv_auth"},
+    "function_codes": {"srv_tcp", "cl_enc", "cl_resp"},                          # all 256 function bytes / all 8 kinds
+    "exception_codes": {"srv_tcp", "cl_resp"},                                   # all 256 exception bytes, both directions
+    "frame_constants": {"srv_tcp", "srv_rtu", "rdr_mbap", "rdr_rtu", "cl_enc"},  # largest frames and header length fields
+    "length_mode": {"rdr_rtu", "srv_rtu"},                                       # all 256 function bytes x direction
+    "auth_table": {"srv_auth"}, "deny": {"srv_auth"}, "policies": {"srv_auth"},  # policies x 8 kinds x (un)configured unit
+    "broadcast": {"srv_rtu"}, "request_function": {"srv_tcp", "srv_rtu", "srv_auth"},
+    "session_ending": {"cl_task"},                                               # every way a request can end, then a second one
+    "tls_versions": {"tls"},                                                     # min version x offered versions, both roles
+    # C ABI: every conversion over its whole domain (ffi tab), every operation x outcome (ffi op), every
+    # write result (ffi wres), the database operations (ffi db)
+    "ffi": {"ffi_tab", "ffi_db"},
+}
+
 HOOK_COMMITS = ["30e20bd", "42a3e10", "f48b181", "076be68"]
 
 
@@ -258,6 +277,7 @@ def life_oracle(case, impl):
 
 PROPS = {
     "C05": dict(
+        tables=[],
         audit_modules=["RodbusModel.Audit.C05"],
         required_theorems=["Rodbus.chunking_independent", "Rodbus.no_spurious_eof",
                            "Rodbus.bad_header_ends_session", "Rodbus.frames_roundtrip",
@@ -284,6 +304,7 @@ PROPS = {
                      "model of ReadBuffer/MbapParser is hand-written; equality with the code is sampled by the rdr suite"],
     ),
     "C06": dict(
+        tables=['length_mode', 'frame_constants'],
         audit_modules=["RodbusModel.Audit.C06"],
         required_theorems=["Rodbus.C06.length_mode_table_correct", "Rodbus.C06.format_crc", "Rodbus.C06.format_len_le", "Rodbus.C06.accept_sound",
                            "Rodbus.C06.rtu_chunking_independent", "Rodbus.C06.burst_detected",
@@ -317,6 +338,7 @@ PROPS = {
         assumptions=["serial line delivers bytes in order", "inter-frame timing (t3.5) is not used by the code and not modelled"],
     ),
     "C14": dict(
+        tables=[],
         audit_modules=["RodbusModel.Audit.C14"],
         required_theorems=["Rodbus.C14.kth_delay", "Rodbus.C14.kth_delay_created", "Rodbus.C14.kth_delay_after_reset",
                            "Rodbus.C14.disconnect_is_min", "Rodbus.C14.no_overflow", "Rodbus.C14.delay_le_max"],
@@ -339,6 +361,7 @@ PROPS = {
         assumptions=["durations are modelled as natural numbers of nanoseconds"],
     ),
     "C15": dict(
+        tables=[],
         audit_modules=["RodbusModel.Audit.C15", "RodbusModel.Audit.C15Net"],
         required_theorems=["Rodbus.C15.tracker_bound", "Rodbus.C15.evicts_oldest", "Rodbus.C15.remove_absent",
                            "Rodbus.C15.fresh_id", "Rodbus.C15Net.open_bound", "Rodbus.C15Net.isolation",
@@ -362,6 +385,7 @@ PROPS = {
         assumptions=["eviction in the real server is asynchronous: the evicted task ends at its next poll"],
     ),
     "C16": dict(
+        tables=[],
         audit_modules=["RodbusModel.Audit.C16", "RodbusModel.Audit.C15Net"],
         required_theorems=["Rodbus.C16.matches_spec", "Rodbus.C16.wildcard_parse_iff", "Rodbus.C16.wrong_field_count_rejected",
                            "Rodbus.C16.parsed_fields_are_octets", "Rodbus.C16.splitDots_join",
@@ -390,6 +414,7 @@ PROPS = {
         assumptions=["IPv6 peers are compared by their canonical text form in the model"],
     ),
     "C01": dict(
+        tables=['function_codes', 'exception_codes', 'limits', 'server_limits', 'request_function', 'broadcast', 'frame_constants'],
         audit_modules=["RodbusModel.Audit.C01"],
         required_theorems=["Rodbus.C01.handleFrame_eq_spec", "Rodbus.C01.parse_iff_valid", "Rodbus.C01.runFrames_eq_spec",
                            "Rodbus.C01.reply_pdu_len", "Rodbus.C01.unknown_function_reply", "Rodbus.C01.invalid_request_reply",
@@ -416,6 +441,7 @@ PROPS = {
         assumptions=["handlers are deterministic state machines; reads do not mutate (they take &self)"],
     ),
     "C02": dict(
+        tables=[],
         audit_modules=["RodbusModel.Audit.C02"],
         required_theorems=["Rodbus.C02.calls_justified", "Rodbus.C02.write_once", "Rodbus.C02.write_once_broadcast",
                            "Rodbus.C02.reads_ascending_prefix", "Rodbus.C02.invalid_no_effect", "Rodbus.C02.reads_no_state_change_lookup"],
@@ -432,6 +458,7 @@ PROPS = {
         assumptions=["handlers are deterministic state machines"],
     ),
     "C08": dict(
+        tables=['auth_table', 'deny', 'policies'],
         audit_modules=["RodbusModel.Audit.C08"],
         required_theorems=["Rodbus.C08.deny_no_effect", "Rodbus.C08.allow_transparent", "Rodbus.C08.auth_first_and_args",
                            "Rodbus.C08.per_request", "Rodbus.C08.per_request_session", "Rodbus.C08.auth_table_correct",
@@ -450,6 +477,7 @@ PROPS = {
         assumptions=["authorization handlers are pure functions of (callback, unit, argument, role)"],
     ),
     "C17": dict(
+        tables=[],
         audit_modules=["RodbusModel.Audit.C17"],
         required_theorems=["Rodbus.C17.silent_unless_addressed", "Rodbus.C17.broadcast_write", "Rodbus.C17.broadcast_read_ignored",
                            "Rodbus.C17.broadcast_never_answered", "Rodbus.C17.unit0_ordinary_on_tcp",
@@ -467,6 +495,7 @@ PROPS = {
         assumptions=["a serial bus delivers every frame to every device; framing is by the length rule of C06"],
     ),
     "C09": dict(
+        tables=['tls_versions'],
         audit_modules=["RodbusModel.Audit.C09"],
         required_theorems=["Rodbus.C09.versions_correct", "Rodbus.C09.tls_table_correct", "Rodbus.C09.admit_iff",
                            "Rodbus.C09.client_admit_iff", "Rodbus.C09.role_is_certificate_role", "Rodbus.C09.no_role_refused",
@@ -498,6 +527,7 @@ PROPS = {
                      "the TLS library negotiates the highest version enabled by both sides"],
     ),
     "C07": dict(
+        tables=['limits', 'frame_constants'],
         audit_modules=["RodbusModel.Audit.C07"],
         required_theorems=["Rodbus.C07.session_outcome", "Rodbus.C07.shutdown_honoured", "Rodbus.C07.reply_fits_writer",
                            "Rodbus.C07.range_addresses_fit", "Rodbus.C07.reader_errors_are_protocol_errors",
@@ -529,6 +559,7 @@ PROPS = {
         assumptions=["harness built with overflow-checks and debug-assertions on (profile.dev)"],
     ),
     "C20": dict(
+        tables=[],
         audit_modules=["RodbusModel.Audit.C20", "RodbusModel.Audit.C20Client"],
         required_theorems=["Rodbus.C20.decode_noninterference_server", "Rodbus.C20.level_change_transparent_server",
                            "Rodbus.C20.level_changes_transparent_server", "Rodbus.Client.decode_noninterference_client",
@@ -556,6 +587,7 @@ PROPS = {
         assumptions=["a tracing subscriber that formats every event into a sink is installed in the harness"],
     ),
     "C13": dict(
+        tables=[],
         audit_modules=["RodbusModel.Audit.C13"],
         required_theorems=["Rodbus.C13.legal_path", "Rodbus.C13.connecting_only_enabled", "Rodbus.C13.no_attempt_while_disabled",
                            "Rodbus.C13.connected_only_after_connecting", "Rodbus.C13.fail_fast", "Rodbus.C13.shutdown_from_anywhere",
@@ -593,6 +625,7 @@ PROPS = {
         assumptions=["loopback connect/accept completes within the 450 ms idle threshold", "the listener callback blocks the task (MaybeAsync::asynchronous)"],
     ),
     "C03": dict(
+        tables=['function_codes', 'limits', 'frame_constants'],
         audit_modules=["RodbusModel.Audit.C03"],
         required_theorems=["Rodbus.C03.tryFrom_ok_iff", "Rodbus.C03.encode_ok_iff", "Rodbus.C03.encode_eq_spec",
                            "Rodbus.C03.mbap_frame_eq_spec", "Rodbus.C03.rtu_frame_eq_spec", "Rodbus.C03.encode_len",
@@ -625,6 +658,7 @@ PROPS = {
         assumptions=["requests are constructed through the public constructors (AddressRange::try_from, WriteMultiple::from) or as struct literals (Q style)"],
     ),
     "C04": dict(
+        tables=['function_codes', 'exception_codes', 'limits'],
         audit_modules=["RodbusModel.Audit.C04"],
         required_theorems=["Rodbus.C04.success_iff", "Rodbus.C04.exception_iff", "Rodbus.C04.otherwise_error", "Rodbus.C04.trichotomy",
                            "Rodbus.C04.exception_code_roundtrip", "Rodbus.C04.returned_indices", "Rodbus.C04.end_to_end"],
@@ -704,6 +738,7 @@ PROPS = {
         assumptions=["loopback TCP"],
     ),
     "C10": dict(
+        tables=['session_ending'],
         audit_modules=["RodbusModel.Audit.C10", "RodbusModel.Audit.C10Drain"],
         required_theorems=["Rodbus.Client.drain_completes", "Rodbus.Client.drain_completes_mbap", "Rodbus.Client.drain_completes_rtu", "Rodbus.Client.session_ending_table_correct", "Rodbus.Client.pending_partition", "Rodbus.Client.never_completed_twice", "Rodbus.Client.closed_trace_exactly_once",
                            "Rodbus.Client.drained_exactly_once", "Rodbus.Client.error_meaning_noconn", "Rodbus.Client.error_meaning_timeout",
@@ -731,6 +766,7 @@ PROPS = {
         assumptions=["virtual (paused) time; each script step settles fully before the next (lock-step)"],
     ),
     "C11": dict(
+        tables=[],
         audit_modules=["RodbusModel.Audit.C11", "RodbusModel.Audit.C11Run"],
         required_theorems=["Rodbus.Client.rtu_stok_reachable", "Rodbus.Client.stale_frame_never_accepted_rtu_reachable", "Rodbus.Client.one_outstanding", "Rodbus.Client.fifo_order", "Rodbus.Client.txid_formula", "Rodbus.Client.txid_next_wraps",
                            "Rodbus.Client.consecutive_differ", "Rodbus.Client.mismatch_discarded", "Rodbus.Client.idle_dropped",
@@ -753,6 +789,7 @@ PROPS = {
         assumptions=["virtual time, lock-step"],
     ),
     "C12": dict(
+        tables=[],
         audit_modules=["RodbusModel.Audit.C12"],
         required_theorems=["Rodbus.Client.timeout_iff", "Rodbus.Client.timeout_only_at_deadline", "Rodbus.Client.before_deadline",
                            "Rodbus.Client.timeout_keeps_connection", "Rodbus.Client.counter_exact", "Rodbus.Client.counter_restarts_per_session",
